@@ -803,3 +803,46 @@ fn c04_roundtrip_sha80_p8() { roundtrip_obligation::<8, 0, 30>(SrtpProfile::Aes1
 #[kani::proof]
 #[kani::unwind(30)]
 fn c04_roundtrip_sha32_p4_pad4() { roundtrip_obligation::<4, 4, 24>(SrtpProfile::Aes128Sha1_32); }
+
+// ---- key derivation (RFC 3711 4.3): labels and the AES-CM PRF input
+/// kdf(len, label, k_master, salt): keystream of AES-CM under k_master with IV = (salt padded to
+/// 16 bytes) and the label XORed into byte 7 (key_derivation_rate 0, index 0)
+#[kani::proof]
+#[kani::unwind(24)]
+fn c04_kdf_spec() {
+    let mk: [u8; 16] = kani::any();
+    let ms: [u8; 14] = kani::any();
+    let label: u8 = kani::any();
+    let out = SrtpContext::kdf(16, label, &mk, &ms).unwrap();
+    let mut iv = [0u8; 16];
+    iv[..14].copy_from_slice(&ms);
+    iv[7] ^= label;
+    let mut want = [0u8; 16];
+    let mut c = <Aes128Ctr as ctr::cipher::KeyIvInit>::new_from_slices(&mk, &iv).unwrap();
+    c.apply_keystream(&mut want);
+    assert!(out[..] == want[..]);
+}
+/// derive_keys: RTP cipher / auth / salt use labels 0 / 1 / 2, RTCP 3 / 4 / 5 (RFC 3711 4.3.1),
+/// with the lengths of the profile
+fn derive_labels_obligation(p: SrtpProfile) {
+    let mk = any_vec::<16>();
+    let ms = any_vec::<14>();
+    let keying = SrtpKeyingMaterial::new(mk.clone(), ms.clone());
+    let (rtp, rtcp) = SrtpContext::derive_keys(p, &keying).unwrap();
+    assert!(rtp.cipher_key == SrtpContext::kdf(16, 0, &mk, &ms).unwrap());
+    assert!(rtp.salt == SrtpContext::kdf(p.salt_len(), 2, &mk, &ms).unwrap());
+    assert!(rtcp.cipher_key == SrtpContext::kdf(16, 3, &mk, &ms).unwrap());
+    assert!(rtcp.salt == SrtpContext::kdf(p.salt_len(), 5, &mk, &ms).unwrap());
+    if p.auth_key_len() > 0 {
+        assert!(rtp.auth_key == SrtpContext::kdf(20, 1, &mk, &ms).unwrap());
+        assert!(rtcp.auth_key == SrtpContext::kdf(20, 4, &mk, &ms).unwrap());
+    } else {
+        assert!(rtp.auth_key.is_empty() && rtcp.auth_key.is_empty());
+    }
+}
+#[kani::proof]
+#[kani::unwind(24)]
+fn c04_derive_keys_labels_sha80() { derive_labels_obligation(SrtpProfile::Aes128Sha1_80); }
+#[kani::proof]
+#[kani::unwind(24)]
+fn c04_derive_keys_labels_gcm() { derive_labels_obligation(SrtpProfile::AeadAes128Gcm); }
